@@ -127,6 +127,39 @@ def run(ck):
             eid += 1
             ck.count()
             evs.append(ev)
+    # ---- human readable: symbols whose names contain operator characters or are words of the HR syntax,
+    # used next to the symbols x, y, p their names mention
+    from pysmt.typing import INT, BOOL
+    hr_names = ["x-y", "x+y", "x*y", "x/y", "-x", "x<y", "x=y", "p&q", "p|q", "!p", "p->q", "x.y", "True", "False", "ToReal", "Int",
+                "forall", "x y", "1x", "x?y:x", "x[y]", "x_1", "X"]
+    for n in hr_names:
+        for ty in (INT, BOOL):
+            env = fresh_env()
+            mgr = env.formula_manager
+            hr = HRParser(env)
+            x, y = mgr.Symbol("x", INT), mgr.Symbol("y", INT)
+            p, q = mgr.Symbol("p", BOOL), mgr.Symbol("q", BOOL)
+            z = mgr.Symbol(n, ty)
+            t = mgr.And(mgr.LE(z, mgr.Plus(x, y)), mgr.Or(p, q)) if ty is INT else mgr.And(mgr.Or(z, p), mgr.Or(q, mgr.LE(x, y)))
+            tj = term_io.export(t)
+            ev = {"id": eid, "kind": "hr_roundtrip", "f": tj, "res": "error", "parsed": tj, "toks1": [], "toks2": [], "exc": "", "name": n}
+            try:
+                s1 = t.serialize()
+                try:
+                    g = hr.parse(s1)
+                except Exception:
+                    hr_unparsed["name:" + n] = hr_unparsed.get("name:" + n, 0) + 1
+                    continue
+                ev["parsed"] = term_io.export(g)
+                ev["toks1"] = [x_ for x_ in re.findall(r"[^\s()]+|[()]", s1) if x_ not in "()"]
+                ev["toks2"] = [x_ for x_ in re.findall(r"[^\s()]+|[()]", g.serialize()) if x_ not in "()"]
+                ev["res"] = "ok"
+                ck.nontrivial(("hr-name", n, str(ty)))
+            except Exception as ex:
+                ev["exc"] = "%s: %s" % (type(ex).__name__, str(ex)[:120])
+            eid += 1
+            ck.count()
+            evs.append(ev)
     # ---- scripts: parse, serialise, parse again
     cases = gen_corpus("ALL", module="gen/Gen_Sx", deps=("gen/Gen_Sx.tla",))
     n_scripts = 0
